@@ -249,28 +249,25 @@ impl SlabRouter {
     pub fn delete(&self, key: &str) -> Result<(), SlabRouterError> {
         self.ops_count.fetch_add(1, Ordering::Relaxed);
 
-        // Check if key exists first
-        if !self.exists(key) {
-            return Err(SlabRouterError::NotFound(key.to_string()));
-        }
-
-        match Self::classify_key(key) {
+        // Whether the key existed is decided by the removal itself: a separate existence check
+        // would let two concurrent deletes of one key both report success.
+        let removed = match Self::classify_key(key) {
             KeyClass::Embedding => {
-                if let Some(entity_id) = self.index.get(key) {
+                let in_index = self.index.get(key).is_some_and(|entity_id| {
                     self.embeddings.delete(entity_id);
-                }
-                self.index.remove(key);
-                self.metadata.delete(key);
-                Ok(())
+                    self.index.remove(key).is_some()
+                });
+                let in_metadata = self.metadata.delete(key).is_some();
+                in_index || in_metadata
             },
-            KeyClass::Cache => {
-                self.cache.delete(key);
-                Ok(())
-            },
-            _ => {
-                self.metadata.delete(key);
-                Ok(())
-            },
+            KeyClass::Cache => self.cache.delete(key),
+            _ => self.metadata.delete(key).is_some(),
+        };
+
+        if removed {
+            Ok(())
+        } else {
+            Err(SlabRouterError::NotFound(key.to_string()))
         }
     }
 
